@@ -190,6 +190,97 @@ def mutate_in_place(d):
     return d
 
 
+def presentations(doc):
+    """the same document content presented differently (what other producers / a JSON round trip with sorted keys hand over)"""
+    def rev(x):
+        if isinstance(x, dict):
+            return {k: rev(x[k]) for k in reversed(list(x))}
+        if isinstance(x, list):
+            return [rev(v) for v in x]
+        return x
+    memo = {}
+
+    def intern_(x):
+        # equal parts are ONE shared object (locations, equal cells, equal strings)
+        if isinstance(x, dict):
+            x = {k: intern_(v) for k, v in x.items()}
+        elif isinstance(x, list):
+            x = [intern_(v) for v in x]
+        return memo.setdefault(json.dumps(x, sort_keys=True), x)
+    import collections
+    return [("keys sorted", json.loads(json.dumps(doc, sort_keys=True))), ("keys in reverse order", rev(json.loads(json.dumps(doc)))),
+            ("equal parts being one shared object", intern_(json.loads(json.dumps(doc)))),
+            ("OrderedDict objects", json.loads(json.dumps(doc), object_pairs_hook=collections.OrderedDict))]
+
+
+def check_presentations(case, doc, what):
+    plain = gh.Compiler(gh.IdGenerator()).compile(json.loads(json.dumps(doc)))
+    for label, pres in presentations(doc):
+        snap = json.dumps(pres)
+        got = gh.Compiler(gh.IdGenerator()).compile(pres)
+        if got != plain:
+            for i, (x, y) in enumerate(zip(got, plain)):
+                if x != y:
+                    raise Violation(case, "%s: the same document with %s compiles differently; pickle #%d is %s, plain %s" % (
+                        what, label, i, json.dumps(x, ensure_ascii=True)[:300], json.dumps(y, ensure_ascii=True)[:300]))
+            raise Violation(case, "%s: the same document with %s compiles to %d pickles, plain %d" % (what, label, len(got), len(plain)))
+        if json.dumps(pres) != snap:
+            raise Violation(case, "%s: compile modified the document it was given (%s)" % (what, label))
+
+
+def scribble(x):
+    """edits every dict and list inside x in place (what a consumer that post-processes ONE pickle may do)"""
+    if isinstance(x, dict):
+        for k in list(x):
+            scribble(x[k])
+            if isinstance(x[k], str):
+                x[k] = x[k] + "~edited"
+        x["edited-by-consumer"] = True
+    elif isinstance(x, list):
+        for v in x:
+            scribble(v)
+        x.append("edited-by-consumer")
+
+
+def check_result_isolation(case, doc, what):
+    """pickles of one result are independent values: editing one in place changes neither its siblings nor the document nor later results"""
+    d = json.loads(json.dumps(doc))
+    c = gh.Compiler(gh.IdGenerator())
+    pk = c.compile(d)
+    if len(pk) < 2:
+        return
+    snaps = [json.dumps(p, sort_keys=True) for p in pk]
+    dsnap = json.dumps(d, sort_keys=True)
+    edited = set()
+    for i in (0, len(pk) - 1):
+        scribble(pk[i])
+        edited.add(i)
+        for j, p in enumerate(pk):
+            if j not in edited and json.dumps(p, sort_keys=True) != snaps[j]:
+                raise Violation(case, "%s: after the consumer edited pickle #%d of a result in place, pickle #%d of the same result changed: %s" % (
+                    what, i, j, _first_change(json.loads(snaps[j]), p)))
+        if json.dumps(d, sort_keys=True) != dsnap:
+            raise Violation(case, "%s: editing a returned pickle in place changed the document that was compiled" % what)
+    again = c.compile(d)
+    fresh = gh.Compiler(gh.IdGenerator()).compile(json.loads(json.dumps(doc)))
+    if _strip_ids(again) != _strip_ids(fresh):
+        raise Violation(case, "%s: after the consumer edited returned pickles in place, compiling the document again with the same compiler differs from a fresh compile: %s" % (
+            what, _first_change(_strip_ids(fresh), _strip_ids(again))))
+
+
+def _strip_ids(x):
+    if isinstance(x, dict):
+        return {k: _strip_ids(v) for k, v in x.items() if k != "id"}
+    if isinstance(x, list):
+        return [_strip_ids(v) for v in x]
+    return x
+
+
+def _first_change(a, b):
+    from vlib.common import diff_text
+    return diff_text(b, a, "now", "before")
+
+
 def check_reuse(case, stats, proj, what):
     """compile doc, then its same-shaped variant, with ONE compiler: the second result must equal a fresh compiler's"""
     doc, nid = case["doc"], case["next_id"]
@@ -229,6 +320,8 @@ def check_reuse(case, stats, proj, what):
         compare(case, fourth, fresh, proj, what + " (after a compile that raised on a malformed document)")
         fifth = gh.Compiler(gh.IdGenerator()).compile(copy.deepcopy(other))
         compare(case, fifth, fresh, proj, what + " (a brand-new compiler after another compiler raised on a malformed document)")
+    check_presentations(case, doc, what)
+    check_result_isolation(case, doc, what)
     # the caller edits the document in place and compiles the same objects again with the same compiler
     d2 = json.loads(json.dumps(doc))
     c2 = gh.Compiler(gh.IdGenerator())
